@@ -15,7 +15,7 @@ ID = "C13"
 LEVEL = "exploration"
 BUDGET = {"quick": (2500, 35), "thorough": (600_000, 540)}
 RULE = ("histories of 2-12 operations: register(path, line in 3 lines, unique watch, optional metric/args), "
-        "unregister(handle) incl. repeated, service publishes a configuration that may use the same lines, sleeps; "
+        "unregister(handle) incl. repeated, service publishes a configuration that may use the same lines, sleeps, shutdown + start with register / unregister calls while stopped; "
         "1-2 application threads issuing them; seeded schedules incl. line-level pre-emption in deep/config; "
         "non-trivial = a history in which two registrations shared a location and one of them was unregistered, or "
         "a service update was interleaved; distinct = distinct (history, outcome) keys")
@@ -51,8 +51,18 @@ def generate(seed, tier):
         elif k < 0.87:
             cfg += 1
             ops.append({"op": "publish", "cfg": cfg, "lines": sorted(r.sample((1, 2, 3), r.randrange(0, 3)))})
-        elif k < 0.92:
+        elif k < 0.90:
             ops.append({"op": "poll"})          # a poll that finds nothing new
+        elif k < 0.94:
+            # the agent is shut down and started again; while it is stopped the application uses its handles and
+            # registers: a stopped agent may refuse that (visibly), it must not half apply it
+            op = {"op": "bounce", "stopped": []}
+            if nreg and r.random() < 0.6:
+                op["stopped"].append(["unregister", r.randrange(1, nreg + 1)])
+            if r.random() < 0.5:
+                nreg += 1
+                op["stopped"].append(["register", nreg, r.choice((1, 2, 3))])
+            ops.append(op)
         else:
             ops.append({"op": "sleep", "s": r.choice((0.0, 1.0, 11.0))})
     # the service stamps its answers with ITS clock: in step with the agent's, stuck at 0, running backwards, or jumping
@@ -65,7 +75,8 @@ def generate(seed, tier):
 
 def shrink_candidates(s):
     for cand in common.drop_one(s["ops"]):
-        regs = {o["reg"] for o in cand if o["op"] == "register"}
+        regs = {o["reg"] for o in cand if o["op"] == "register"} | {
+            x[1] for o in cand if o["op"] == "bounce" for x in o["stopped"] if x[0] == "register"}
         if all(o["reg"] in regs for o in cand if o["op"] == "unregister"):
             yield dict(s, ops=cand)
     if s["two_threads"]:
@@ -111,7 +122,19 @@ def execute(s, ch):
         svc_lines = []
         errors = []
 
+        down = {"n": 0}
+
+        def refused(e, since):
+            # the other application thread has shut the agent down (or did, while this call was under way): a visible
+            # refusal - the call changed nothing, the model stays as it is
+            from deep.task import IllegalStateException
+            if isinstance(e, IllegalStateException) and (down["n"] or since != down.get("gen", 0)):
+                k.fault("refused_while_stopped")
+                return True
+            return False
+
         def run_op(o):
+            since = down.get("gen", 0)
             if o["op"] == "sleep":
                 k.sleep(o["s"])
             elif o["op"] == "publish":
@@ -148,7 +171,45 @@ def execute(s, ch):
                 except kernel.SimKilled:
                     raise
                 except BaseException as e:  # noqa
-                    errors.append(("register", repr(e)))
+                    if not refused(e, since):
+                        errors.append(("register", repr(e)))
+            elif o["op"] == "bounce":
+                k.fault("restart")
+                down["n"] += 1
+                down["gen"] = down.get("gen", 0) + 1
+                try:
+                    w.deep.shutdown()
+                except kernel.SimKilled:
+                    raise
+                except BaseException as e:  # noqa
+                    errors.append(("shutdown", repr(e)))
+                again = []
+                for st in o["stopped"]:
+                    try:
+                        if st[0] == "register":
+                            handles[st[1]] = w.deep.register_tracepoint(
+                                p.basename, 1 + st[2], {"fire_count": "-1", "fire_period": "0"}, ["'reg%d'" % st[1]], [])
+                            model[st[1]] = st[2]
+                        elif handles.get(st[1]) is not None:
+                            handles[st[1]].unregister()
+                            model.pop(st[1], None)
+                    except kernel.SimKilled:
+                        raise
+                    except BaseException:  # noqa
+                        k.fault("refused_while_stopped")
+                        if st[0] == "unregister":
+                            again.append(st[1])
+                w.start()
+                down["n"] -= 1
+                for reg in again:
+                    # the handle is used again now that the agent runs: this time it has to take effect
+                    try:
+                        handles[reg].unregister()
+                        model.pop(reg, None)
+                    except kernel.SimKilled:
+                        raise
+                    except BaseException as e:  # noqa
+                        errors.append(("unregister", repr(e)))
             elif o["op"] == "unregister":
                 h = handles.get(o["reg"])
                 if h is None:
@@ -161,7 +222,8 @@ def execute(s, ch):
                 except kernel.SimKilled:
                     raise
                 except BaseException as e:  # noqa
-                    errors.append(("unregister", repr(e)))
+                    if not refused(e, since):
+                        errors.append(("unregister", repr(e)))
         if s["two_threads"]:
             # operations keep their program order per thread; registrations/unregistrations of one handle stay ordered
             # because the harness waits for a handle to exist before unregistering it
